@@ -1,32 +1,36 @@
 import Lemmas.BitSetRange
+import Lemmas.BitSetSwar
 /-! C08: effect of every mutator on the abstraction `mem` and on the invariant `Inv` (`set` = cardinality). -/
 namespace BS
 
 /-- the SWAR routine `countSetBits` of the source computes the population count -/
 def SwarPopcount : Prop := ∀ x : W, countSetBits x = Int.ofNat (popcount x)
 
-theorem wholeSet_spec (h : SwarPopcount) : WholeSpec wholeSet (fun _ => true) := by
+/-- it does: `Lemmas/BitSetSwar.lean` (byte lanes, kernel-checked) -/
+theorem swarPopcount : SwarPopcount := countSetBits_eq_popcount
+
+theorem wholeSet_spec : WholeSpec wholeSet (fun _ => true) := by
   refine ⟨fun w s k hk => ?_, fun w s => ?_⟩
   · show (BitVec.allOnes 64).getLsbD k = true
     rw [BitVec.getLsbD_allOnes]; simp [hk]
   · show s + ((dbpw : Int) - countSetBits w) = s + popcount (BitVec.allOnes 64) - popcount w
-    rw [h w, popcount_allOnes, dbpw_eq]; simp; omega
+    rw [swarPopcount w, popcount_allOnes, dbpw_eq]; simp; omega
 
-theorem wholeClear_spec (h : SwarPopcount) : WholeSpec wholeClear (fun _ => false) := by
+theorem wholeClear_spec : WholeSpec wholeClear (fun _ => false) := by
   refine ⟨fun w s k _ => ?_, fun w s => ?_⟩
   · show (0#64).getLsbD k = false
     simp
   · show s - countSetBits w = s + popcount 0#64 - popcount w
-    rw [h w, popcount_zero]; simp
+    rw [swarPopcount w, popcount_zero]; simp
 
-theorem wholeFlip_spec (h : SwarPopcount) : WholeSpec wholeFlip (fun v => !v) := by
+theorem wholeFlip_spec : WholeSpec wholeFlip (fun v => !v) := by
   have hb : ∀ (w : W) k, k < 64 → (w ^^^ BitVec.allOnes 64).getLsbD k = !w.getLsbD k := by
     intro w k hk
     rw [BitVec.getLsbD_xor, BitVec.getLsbD_allOnes]; simp [hk]
   refine ⟨fun w s k hk => hb w k hk, fun w s => ?_⟩
   show s + ((dbpw : Int) - 2 * countSetBits w) = s + popcount (w ^^^ BitVec.allOnes 64) - popcount w
   have := popcount_compl w _ (hb w)
-  rw [h w, dbpw_eq]
+  rw [swarPopcount w, dbpw_eq]
   simp only [Int.ofNat_eq_natCast]
   omega
 
@@ -170,7 +174,7 @@ theorem runRange_spec {whole : W → Int → W × Int} {act : W → Int → Nat 
     simp only [Int.ofNat_eq_natCast]
     omega
 
-theorem setRange_spec (hsw : SwarPopcount) (b : T) (s e : Nat) :
+theorem setRange_spec (b : T) (s e : Nat) :
     (∀ x, mem (setRange b s e) x = (mem b x || decide (min s e ≤ x ∧ x ≤ max s e)))
     ∧ (Inv b → Inv (setRange b s e)) := by
   unfold setRange
@@ -179,14 +183,14 @@ theorem setRange_spec (hsw : SwarPopcount) (b : T) (s e : Nat) :
   have hlo : se.1 = min s e := by rw [← hse]; split <;> simp <;> omega
   have hhi : se.2 = max s e := by rw [← hse]; split <;> simp <;> omega
   have hlen := ensure_length b (se.2 / 64 + 1)
-  obtain ⟨h1, h2, _⟩ := runRange_spec (wholeSet_spec hsw) bitSet_spec (ensureCapacity b (se.2 / 64 + 1)) se.1 se.2
+  obtain ⟨h1, h2, _⟩ := runRange_spec wholeSet_spec bitSet_spec (ensureCapacity b (se.2 / 64 + 1)) se.1 se.2
     (by rw [hlo, hhi]; omega) (by omega)
   refine ⟨fun x => ?_, fun hinv => h2 (ensure_inv b _ hinv)⟩
   rw [h1 x, hlo, hhi]
   unfold mem; rw [ensure_bit]
   by_cases hx : min s e ≤ x ∧ x ≤ max s e <;> simp [hx]
 
-theorem flipRange_spec (hsw : SwarPopcount) (b : T) (s e : Nat) :
+theorem flipRange_spec (b : T) (s e : Nat) :
     (∀ x, mem (flipRange b s e) x = (mem b x ^^ decide (min s e ≤ x ∧ x ≤ max s e)))
     ∧ (Inv b → Inv (flipRange b s e)) := by
   unfold flipRange
@@ -195,14 +199,14 @@ theorem flipRange_spec (hsw : SwarPopcount) (b : T) (s e : Nat) :
   have hlo : se.1 = min s e := by rw [← hse]; split <;> simp <;> omega
   have hhi : se.2 = max s e := by rw [← hse]; split <;> simp <;> omega
   have hlen := ensure_length b (se.2 / 64 + 1)
-  obtain ⟨h1, h2, _⟩ := runRange_spec (wholeFlip_spec hsw) bitFlip_spec (ensureCapacity b (se.2 / 64 + 1)) se.1 se.2
+  obtain ⟨h1, h2, _⟩ := runRange_spec wholeFlip_spec bitFlip_spec (ensureCapacity b (se.2 / 64 + 1)) se.1 se.2
     (by rw [hlo, hhi]; omega) (by omega)
   refine ⟨fun x => ?_, fun hinv => h2 (ensure_inv b _ hinv)⟩
   rw [h1 x, hlo, hhi]
   unfold mem; rw [ensure_bit]
   by_cases hx : min s e ≤ x ∧ x ≤ max s e <;> simp [hx]
 
-theorem clearRange_spec (hsw : SwarPopcount) (b : T) (s e : Nat) :
+theorem clearRange_spec (b : T) (s e : Nat) :
     (∀ x, mem (clearRange b s e) x = (mem b x && !decide (min s e ≤ x ∧ x ≤ max s e)))
     ∧ (Inv b → Inv (clearRange b s e)) := by
   unfold clearRange
@@ -226,7 +230,7 @@ theorem clearRange_spec (hsw : SwarPopcount) (b : T) (s e : Nat) :
     have hi4 : ie.2 ≤ se.2 := by rw [← hie]; split <;> simp <;> omega
     have hi5 : ie.2 = se.2 ∨ ie.2 + 1 = b.data.length * 64 := by rw [← hie]; split <;> simp <;> omega
     rw [hi1]
-    obtain ⟨h1, h2, _⟩ := runRange_spec (wholeClear_spec hsw) bitClear_spec b se.1 ie.2 hi3 hi2
+    obtain ⟨h1, h2, _⟩ := runRange_spec wholeClear_spec bitClear_spec b se.1 ie.2 hi3 hi2
     refine ⟨fun x => ?_, h2⟩
     rw [h1 x]
     by_cases hx : se.1 ≤ x ∧ x ≤ ie.2
